@@ -4,8 +4,8 @@
 (G) CondAsm_Gen: transition cover of the machine's state graph + simulated long grammatical programs,
     rendered (several spellings per condition kind) and replayed into the real asl.
 (V) CondAsm_Trace: `stmt` events of corpus runs validated against the same operators.
-(V2) AsCore_Trace: the same corpus statements validated against CondAsm x AddrBook composed, with the cross-machine
-    claims SkippedIsInert / RecordedIsInert / IfFamilyIsAddressNeutral.
+(V2) AsCore_Trace (checks/ext_ascore.py, see "Composed validation" below): every golden execution validated against ALL
+    statement-level machines of the specification at once.
 Variants rendered per behaviour: balanced with closers; left open (MissEndif expected); wrapped in a macro body that
 ends with EXITM inside the open constructs (RestoreIFs: no error, nothing behind EXITM assembled).
 True conditions are rendered with positive, negative and large values ("true = not 0").
@@ -13,6 +13,48 @@ Verdict-bearing: marker bytes / symbol definitions of selected branches, error-o
 Mutations of the real code tried: IFB argument loop (found as defect), lone ELSECASE (found as defect), EXITM without
 RestoreIFs (caught), ELSECASE in a skipped region / IFB last-argument-only / ELSEIF negative condition (independent
 seeds, caught; the last after adding negative true values); corrupted and removed stmt events are rejected.
+
+Composed validation (growth of the specification: spec/AsCore.tla, AsCore_Trace.tla, AsCore_MC.tla, AsCore_Gen.tla;
+harness checks/ext_ascore.py).  ONE recorded execution of the assembler (one process, all passes; hook classes file,
+stmt, emit, sym, diag, line regrouped per source statement) is one behaviour of the composition of
+  CondAsm (IF/SWITCH stack) x AddrBook (counters, phases, segments, SAVE, STRUCT) x Diag (counter protocol; the run /
+  file / pass protocol, freshness of every pass, keep/unlink and exit status are Driver_Trace's actions, reused by
+  INSTANCE) x CodeWriter_Trace (stream view: Consume/Norm) x MacroProc (PROJECTION: input/output tag chains with kind,
+  IsMacro, IfLevel, body = range of recorded statements, LineZ, IsEmpty; macro table; NestAfter / DoRestoreIFs reused;
+  parameter substitution is not composed, delivered text is compared only for verbatim bodies: REPT, WHILE).
+The composed step is the operator StmtSucc of AsCore.tla; claims checked at every step: SkippedIsInert (now also: no
+diagnostic, no definition), RecordedIsInert, IfFamilyIsAddressNeutral, ErrsDeltaIsDiagCount, ErrorLineEmitsNoCode,
+FailedHandlerNeedsError, MachineErrorIsReported, ExitmRestoresEntryDepth, RejectedHeaderNeedsError,
+DeliveredAsRecorded, TagDepthIsMachineDepth, LabelValueIsExec (incl. STRUCT element offsets), LastPassImageEqualsFile,
+PassBoundaryResetsEverything, OpenConstructsAreReported.  Named exceptions read off the code: LabelSetByTarget (XA code
+segment), NameOccupied (NS32K SAVE/RESTORE instructions), label-consuming statements (LabelPresent/IsDef).
+All 201 golden programs (355 040 statements, 356 901 events) are accepted (quick and thorough; ~20 s alone, several
+TLC processes side by side).  Coverage in the evidence part AsCore_Trace(corpus): 85 % of the statements are handled by
+a named action of some machine (per machine: MP 55 %, CW 43 %, CA 11 %, LB 6 %, DG 0.5 %, AB 0.3 %), 15 % by the generic
+rule "nothing but the active counter moves".
+Because the golden programs contain no unexpected error, no EXITM and no construct left open, a bounded forward model
+of the composition (AsCore_MC: 21-statement alphabet incl. faulty lines, ERROR/WARNING, IF family, ORG/PHASE/SAVE,
+one macro MM, EXITM, REPT) is model checked (ForwardIsAllowed: every forward step is in StmtSucc of the record a hook
+would write; ErrCountIsFaultyExecuted; quick: every program of <= 3 lines + macro family of 6 lines, 34 k + 17 k
+states; thorough: 4 / 7 lines) and every complete behaviour is exported with the predicted outcome (AsCore_Gen), rendered,
+assembled with hooks, compared (status, error/warning totals, code file stream) and validated by AsCore_Trace like the
+golden ones (quick: ~3.4 k programs, thorough: ~100 k).
+Verdicts: a rejected trace is re-validated with one claim switched off at the rejected event (CONSTANTS OffSet/OffAt;
+TLC decides which claim is violated); claims the manual states definitely (skipped / recorded lines are inert, label =
+program counter, code file = emitted stream, EXITM resets the IF stack, verbatim REPT/WHILE bodies) are violations,
+finer predictions (machine steps, tag depth, error counts) SPEC-DRIFT; for generated programs: wrong status or wrong
+code file of a clean program = violation, wrong count = SPEC-DRIFT.
+Not covered by the composition: parameter substitution of MACRO/IRP bodies (C11), EXPECT bookkeeping (C20), section
+scoping of macro names (latest definition wins in the projection), addresses >= 2^30 (execution skipped; none today).
+Mutations tried on scratch copies of /repo (VERIF_REPO): label entered with ProgCounter() instead of EProgCounter()
+-> VIOLATION LabelValueIsExec (t_phase + generated); errors of lines delivered by a macro not counted (asmerr.c) ->
+VIOLATION (status 0 where the model predicts errors) + ErrsDeltaIsDiagCount rejection; IfLevel saved one too deep
+(GenerateProcessor) -> VIOLATION ExitmRestoresEntryDepth + c12's own EXITM variant; REPT_Processor drops the last body
+line -> DeliveredAsRecorded rejections in t_47c00, t_st9, t_cold, t_32 + stream mismatches of generated programs.
+Corrupted records (label value, tag depth, exhausted flag, emitted byte, chunk address, ErrorCount, skipped line that
+emits, IF without push, extra byte in the code file) are rejected at the corrupted event with the right claim named.
+Mutations of the forward model (EXITM without restore, skipped line emits, label + 1, faulty line emits, silent
+RESTORE) violate ForwardIsAllowed.
 """
 import os
 
